@@ -1380,8 +1380,9 @@ class TaskPool:
     def release_held_active_task(self, itask: TaskProxy) -> None:
         if itask.state_reset(is_held=False):
             self.data_store_mgr.delta_task_state(itask)
-            if (not itask.state.is_runahead) and itask.is_ready_to_run():
-                self.queue_task(itask)
+            # (not a manually triggered task: it is already on its way to
+            # job submission, or queued by the trigger)
+            self.queue_if_ready(itask)
         self.tasks_to_hold.discard((itask.tdef.name, itask.point))
         self.workflow_db_mgr.put_tasks_to_hold(self.tasks_to_hold)
 
